@@ -12,7 +12,7 @@ configurations and reinit points (see the rule text).
 _T = ['bin/exe']
 
 
-def _job(name, family, quick=None, thorough=None, witnesses=(), min_outcomes=2, tiers=('quick', 'thorough'), deadline=(120, 900), shards=16):
+def _job(name, family, quick=None, thorough=None, witnesses=(), min_outcomes=2, tiers=('quick', 'thorough'), deadline=(120, 900), shards=16, max_restarts=60):
     return {
         'name': name, 'bin': 'exe', 'family': family, 'tiers': tiers, 'shards': shards,
         'args': {'quick': quick or {}, 'thorough': thorough or {}},
@@ -20,7 +20,8 @@ def _job(name, family, quick=None, thorough=None, witnesses=(), min_outcomes=2, 
         'min_outcomes': min_outcomes,
         'resume': 'index',
         'deadline': {'quick': deadline[0], 'thorough': deadline[1]},
-        'max_restarts': 40,
+        # every crashing case costs one restart of its shard (the case becomes a violation, the shard resumes behind it)
+        'max_restarts': max_restarts,
     }
 
 
@@ -61,17 +62,56 @@ PLANS = {
             _job('resolvconf-deep', 'resolvconf-deep', thorough={'k': 5}, tiers=('thorough',),
                  witnesses=['init_ok', 'junk_line_ignored', 'metamorphic_pairs', 'option_timeout_zero', 'reference_agreed'], min_outcomes=10,
                  deadline=(0, 600)),
-            _job('otherfiles', 'otherfiles', quick={'k': 3}, thorough={'k': 4},
+            _job('otherfiles', 'otherfiles', quick={'k': 3}, thorough={'k': 5},
                  witnesses=['init_ok', 'junk_line_ignored', 'metamorphic_pairs', 'reference_agreed'], min_outcomes=2, deadline=(60, 300)),
-            _job('hosts', 'hosts', quick={'k': 3}, thorough={'k': 4},
+            _job('hosts', 'hosts', quick={'k': 3}, thorough={'k': 5},
                  witnesses=['init_ok', 'junk_line_ignored', 'metamorphic_pairs', 'hosts_entry_found', 'reference_agreed'], min_outcomes=8, deadline=(60, 600)),
-            _job('aliases', 'aliases', quick={'k': 3}, thorough={'k': 4},
+            _job('aliases', 'aliases', quick={'k': 3}, thorough={'k': 5},
                  witnesses=['init_ok', 'junk_line_ignored', 'metamorphic_pairs', 'alias_found', 'reference_agreed'], min_outcomes=3, deadline=(60, 300)),
             _job('envopts', 'envopts', quick={'k': 3}, thorough={'k': 4},
                  witnesses=['init_ok', 'junk_line_ignored', 'metamorphic_pairs', 'option_timeout_zero', 'env_overrides_file', 'reference_agreed'],
                  min_outcomes=10, deadline=(60, 600)),
-            _job('strings', 'strings', quick={'k': 2}, thorough={'k': 3},
+            _job('strings', 'strings', quick={'k': 2}, thorough={'k': 4},
                  witnesses=['init_ok', 'setter_ok', 'setter_error', 'csv_roundtrip', 'server_v6_linklocal'], min_outcomes=2, deadline=(60, 600)),
+        ],
+    },
+    'C16': {
+        'level': 'model_checking',
+        'rule': (
+            'bounded-exhaustive enumeration of configuration scenarios: family options = ares_init() and every set of at most 2 (quick) / 3 (thorough) distinct '
+            'option bits out of the 23 accepted by ares_init_options() (ARES_OPT_EVENT_THREAD excluded) with boundary values per bit, x 3 system configurations x 3 '
+            'reinit targets; family servers = every list of 1..3 servers over {IPv4, IPv6, link-local IPv6 + interface} x {default ports, equal non-default, '
+            'differing UDP/TCP} through every setter x channel-wide port options; family userwins = every combination of the overridable settings supplied through '
+            'options or setters x 2 system configurations that set every overridable field to another value x 3 reinit targets; every scenario runs the real '
+            'ares_init_options / setters / ares_save_options / ares_dup / ares_get_servers_csv / ares_reinit in a virtual environment and compares the effective '
+            'configuration (private channel fields + ares_get_servers_csv + ares_get_servers_ports) with a reference model (user value, else system value, else '
+            'default), checks save->init->save as a fixed point of the options structure, equality of original and ares_dup copy, csv->set->csv, user settings '
+            'unchanged after ares_reinit, and an empty allocator ledger; transitions = scenarios; states = distinct effective configurations (summed over shards); '
+            'distinct_nontrivial = distinct (status, reinit target, number of findings) tuples summed over jobs'),
+        'assumptions': [
+            'Unix file based system configuration; files, environment, hostname and interface table are virtual (see C15)',
+            'ARES_OPT_EVENT_THREAD is excluded (needs a running thread); ARES_OPT_SOCK_STATE_CB is checked as a pass-through value only',
+            'ARES_OPT_TIMEOUT and ARES_OPT_TIMEOUTMS name the same structure field and are never combined; values documented as "use the default" '
+            '(<= 0, NULL) count as not supplied',
+            'after a reinit to a configuration that no longer mentions a field (timeout, tries, domains, lookups, sortlist, servers) the documentation does not '
+            'say whether the previous system value stays: counted (counters reinit_field_not_in_new_config:*), not asserted',
+            'a link-local server installed through ares_set_servers / ares_set_servers_ports has no interface and cannot be carried by the csv text '
+            '(documented format): counted, not asserted',
+            'save->init->save is asserted for what struct ares_options can express (IPv4 servers, channel-wide ports)',
+            'allocation never fails (C14)',
+        ],
+        'targets': _T,
+        'deadline': {'quick': 280, 'thorough': 2300},
+        'jobs': [
+            _job('options', 'options', quick={'bits': 2}, thorough={'bits': 3},
+                 witnesses=['user_setting_preserved', 'system_value_applied', 'default_applied', 'fixedpoint_checked', 'dup_checked', 'csv_roundtrip', 'reinit_checked', 'init_error'],
+                 min_outcomes=3, deadline=(150, 1500)),
+            _job('servers', 'servers',
+                 witnesses=['user_setting_preserved', 'fixedpoint_checked', 'dup_checked', 'csv_roundtrip', 'reinit_checked', 'server_v6_linklocal'],
+                 min_outcomes=1, deadline=(100, 400), max_restarts=400),
+            _job('userwins', 'userwins',
+                 witnesses=['user_setting_preserved', 'system_value_applied', 'fixedpoint_checked', 'dup_checked', 'csv_roundtrip', 'reinit_checked'],
+                 min_outcomes=3, deadline=(100, 400)),
         ],
     },
 }
